@@ -1,12 +1,12 @@
 SPECIFICATION Spec
 CONSTANT MaxCalls = 2
 CONSTANT MaxHandles = 1
-CONSTANT KindSet = {"Now", "Later", "Give", "Take"}
+CONSTANT KindSet = {"Later", "Give"}
 CONSTANT Flags = {TRUE, FALSE}
 CONSTANT Hows = {"ok", "err", "errx"}
-CONSTANT Reasons = {1, 2}
+CONSTANT Reasons = {2}
 CONSTANT NObj = {1}
-CONSTANT Depth = 7
+CONSTANT Depth = 6
 CONSTRAINT Bound
 VIEW View
 INVARIANT ExactlyOnce
